@@ -175,10 +175,11 @@ def _post_rproto(args, kwargs, result, exc, token):
         if bad:
             problems.append(f"generated line {line!r} invalid on {platform}: {bad}")
         got.append(sem["proto"])
-        for key in ("seq", "action", "src", "dst", "flags", "logs"):
+        for key in ("seq", "action", "src", "dst", "flags", "logs", "sport", "dport"):
             if sem[key] != tsem[key]:
                 problems.append(f"line {line!r} differs from the template in {key}")
-        if kwargs.get("protocol_nr") and not line.split()[1 if not line.split()[0].isdigit() else 2].isdigit():
+        if kwargs.get("protocol_nr") and not (sem["sport"] or sem["dport"]) and \
+                not line.split()[1 if not line.split()[0].isdigit() else 2].isdigit():  # (with ports the tcp/udp keyword stays, decision 18)
             problems.append(f"line {line!r} shows a protocol name under protocol_nr=True")
     if intervals.from_ints(got) != want or len(got) != intervals.size(want):
         problems.append(f"lines cover protocols {intervals.encode(intervals.from_ints(got))!r} ({len(got)} lines), requested {intervals.encode(want)!r}")
@@ -268,6 +269,11 @@ def execute(ctx, case: dict) -> None:
         try:
             cisco_acl.range_protocols(protocols=case["protocols"], line=case["line"], platform=case["platform"],
                                       protocol_nr=case["protocol_nr"])
+        except ValueError as ex:
+            if case.get("refusal_ok"):
+                ctx.count("port_bearing_template_refused")  # (scope decision 20: refusing is fine, wrong lines are not)
+            else:
+                ctx.violation(case, "range_protocols raised on a valid request", f"{type(ex).__name__}: {ex}")
         except Exception as ex:  # pylint: disable=broad-except
             ctx.violation(case, "range_protocols raised on a valid request", f"{type(ex).__name__}: {ex}")
         ctx.count("range_protocols_judged")
@@ -328,6 +334,14 @@ def gen_cases(ctx):
             log = rng.choice(["", "", " log"])
             seq = rng.choice(["", "", "10 "])
             line = f"{seq}{rng.choice(['permit', 'deny'])} ip {addr()} {addr()}{log}"
+            if rng.random() < 0.15:
+                # a tcp/udp template that carries a port, asked for tcp and udp only: a refusal is fine; lines, if any, must be valid
+                pr = rng.choice(["tcp", "udp"])
+                port = rng.choice(["eq 80", "eq 53", "eq 1025", "range 20 25", "eq 514"])
+                tline = f"{rng.choice(['permit', 'deny'])} {pr} any {port} any" if rng.random() < 0.5 else f"permit {pr} any any {port}"
+                yield {"k": "proto", "platform": platform, "protocols": rng.choice(["6,17", "17", "6", "17,6"]), "line": tline,
+                       "protocol_nr": rng.random() < 0.5, "refusal_ok": True}
+                continue
             yield {"k": "proto", "platform": platform, "protocols": _request(rng, 0, 255, small_bias=False, max_width=12, hyphen_blanks=False),
                    "line": line, "protocol_nr": rng.random() < 0.5}
             continue
